@@ -215,4 +215,12 @@ var checks = map[string]*check{
 		Assumptions: []string{"the ordering listener -> line -> stdout swap is program order in one goroutine; what is exhaustive is the environment x configuration product", "'nothing else on stdout' is observed for 150 ms after the line"},
 		Parts:       []part{{Name: "cookie-and-line", Kind: "enum", Bin: "e3.test", Test: "TestC16"}},
 	},
+	"C18": {
+		Title: "Graceful shutdown leaves no sockets, temp directories or goroutines behind",
+		Level: "exploration",
+		Rule: "every history of <= 2 (thorough <= 3) events over {dispense, brokered connection plugin->host, brokered connection host->plugin, stdio burst} after connect, followed by Kill with a cooperative plugin, x {net/rpc, gRPC, gRPC+mux} x TLS {none, AutoMTLS} x launch {command, custom runner}; real plugin.Serve child and real Client in a fresh host process with private socket/temp directories; " +
+			"afterwards both directories are listed, the plugin's deferred-cleanup marker is checked and the host's goroutines are dumped 7 s after Kill; non-trivial = at least one event",
+		Assumptions: []string{"no schedule control over real processes; a leak that needs a particular interleaving may escape", "goroutines are sampled once, 7 s after Kill (after the 5 s broker timers)"},
+		Parts:       []part{{Name: "leaks", Kind: "enum", Bin: "e3.test", Test: "TestC18"}},
+	},
 }
